@@ -14,7 +14,9 @@ Three judges per Resize call:
       declared maximum; an accepted call changes only the 8*rank extent bytes of the dataspace message (file length
       unchanged, every other message byte-identical, maxima unchanged) and the header decodes to the new extents; a
       refused call changes no byte of the file and leaves the handle's dims alone;
-  (c) at the end of each case the shape decoded from the last image = the last accepted request.
+  (c) at the end of each case the shape decoded from the last image = the last accepted request;
+  (d) the hypotheses of the theorems of Props/C13Header.v (handle_ok, stored - decided by Model/ResizeTie.v stored_ok, sound by
+      C13H_stored_ok_sound) hold for every image the implementation has in front of a Resize call.
 Go violating (b)/(c) is a VIOLATION with the operation list (cut after the failing call) as failing input; model != Go
 with the oracle satisfied is reported as nofail (correspondence Model/Resize.v vs dataset_write.go Resize).
 
@@ -215,9 +217,9 @@ def coq_case(case, out):
 
 
 def coq_judge(cases, outs, tag):
-    """-> set of indices (into cases) on which check_case is false"""
+    """-> (set of indices (into cases) on which check_case is false, set of indices on which hyp_case is false)"""
     import concurrent.futures as cf
-    bad = set()
+    bad, badhyp = set(), set()
     idx = [i for i, o in enumerate(outs) if o.get("create", {}).get("ok") and o.get("steps") is not None]
     step = max(10, min(150, (len(idx) + 7) // 8))
     parts = [idx[k:k + step] for k in range(0, len(idx), step)]
@@ -226,13 +228,14 @@ def coq_judge(cases, outs, tag):
         k, part = kp
         text = ("From HV Require Import Base.Prelude Model.Resize Model.ResizeTie.\n"
                 "Definition cs : list rcase := [\n%s].\n"
-                "Definition bad := Eval vm_compute in mismatches check_case cs.\nPrint bad.\n" % ";\n".join(coq_case(cases[i], outs[i]) for i in part))
+                "Definition bad := Eval vm_compute in mismatches check_case cs.\nPrint bad.\n"
+                "Definition badhyp := Eval vm_compute in mismatches hyp_case cs.\nPrint badhyp.\n" % ";\n".join(coq_case(cases[i], outs[i]) for i in part))
         o = vlib.coq_eval(text, "c13unit_%s_%d" % (tag, k))
-        return [part[j] for j in vlib.parse_nlist(o, "bad")]
+        return [part[j] for j in vlib.parse_nlist(o, "bad")], [part[j] for j in vlib.parse_nlist(o, "badhyp")]
     with cf.ThreadPoolExecutor(8) as ex:
-        for r in ex.map(one, enumerate(parts)):
-            bad.update(r)
-    return bad
+        for r, rh in ex.map(one, enumerate(parts)):
+            bad.update(r); badhyp.update(rh)
+    return bad, badhyp
 
 
 # ----------------------------------------------------------------------------- driver
@@ -301,7 +304,7 @@ def run_unit(ctx):
                                    failing_input=small, findings=f[:6],
                                    implementation=dict(addr=o.get("addr"), step=(o["steps"][at] if o.get("steps") and at is not None and at < len(o["steps"]) else None))))
     t0 = time.time()
-    model_bad = coq_judge(cases, outs, ctx.tier)
+    model_bad, hyp_bad = coq_judge(cases, outs, ctx.tier)
     coq_s = time.time() - t0
     for i in sorted(model_bad - oracle_bad)[:3]:
         c = dict(cases[i]); c.pop("dir", None)
@@ -311,13 +314,19 @@ def run_unit(ctx):
                                case=c, implementation=[dict(res=s["res"], dims=s.get("dims"), datasize=s.get("datasize"), chunks=s.get("chunks"),
                                                             before=s.get("before"), after=s.get("after"))
                                                        for s in outs[i]["steps"] if s.get("is_resize")][:8]))
+    for i in sorted(hyp_bad - oracle_bad - model_bad)[:3]:
+        c = dict(cases[i]); c.pop("dir", None)
+        violations.append(dict(what="C13 unit: a header image the implementation has in front of a Resize call does not satisfy the hypotheses of "
+                                    "Props/C13Header.v (stored_ok / handle_ok false): the theorems do not cover this call",
+                               nofail=True, correspondence="Model/ResizeTie.v stored_ok (C13H_stored_ok_sound) vs the object header the library wrote",
+                               case=c, implementation=[dict(res=s["res"], before=s.get("before")) for s in outs[i]["steps"] if s.get("is_resize")][:8]))
     samples = []
     for c, o in list(zip(cases, outs))[:2]:
         samples.append(dict(sb=c["sb"], dtype=c["dtype"], dims=c["dims"], chunk=c["chunk"], maxdims=c["maxdims"], ops=c["ops"][:6],
                             results=[("ok" if s["res"].get("ok") else "err") for s in (o.get("steps") or [])][:6]))
     return dict(violations=violations, known=[], evaluations=n_eval, distinct=len(distinct), samples=samples,
                 detail=dict(cases=len(cases), resize_calls=n_eval, accepted=n_acc, refused=n_ref, op_mix=opmix, request_classes=classes,
-                            model_mismatch_cases=len(model_bad), oracle_failing_cases=len(oracle_bad), coq_seconds=round(coq_s, 1)))
+                            model_mismatch_cases=len(model_bad), hypotheses_false_cases=len(hyp_bad), oracle_failing_cases=len(oracle_bad), coq_seconds=round(coq_s, 1)))
 
 
 if __name__ == "__main__":
